@@ -3,11 +3,11 @@ INVARIANT AllOK
 VIEW McView
 CHECK_DEADLOCK FALSE
 CONSTANTS
-  Sizes <- SgrSizes
+  Sizes <- DumpSizes
   Limits <- Lim0
-  Fills <- NoFill
-  Alphabet <- SgrAlphabet
+  Fills <- DumpFills
+  Alphabet <- DumpAlphabet
   Resizes <- NoResize
-  MaxDepth = 3
+  MaxDepth = 4
   Emit = TRUE
-  CheckDump = FALSE
+  CheckDump = TRUE
